@@ -2202,6 +2202,15 @@ impl<T: PPGEvaluatorStrategy> PPGEvaluator<T> {
                             debug!("\tstill unknown validation status");
                         }
                         solid_vs => {
+                            // an ephemeral without a record of its own never completed (it is new,
+                            // or it failed last time): it can not be vouched for by its input records alone.
+                            let solid_vs = if solid_vs == ValidationStatus::Validated
+                                && !history.contains_key(&jobs[node_idx as usize].job_id)
+                            {
+                                ValidationStatus::Invalidated
+                            } else {
+                                solid_vs
+                            };
                             set_node_state!(
                                 jobs[node_idx as usize],
                                 JobState::Ephemeral(JobStateEphemeral::NotReady(solid_vs),),
